@@ -1,2 +1,3 @@
 import Fix8Model.Props.C07
 import Fix8Model.Props.C08
+import Fix8Model.Props.C09
